@@ -681,6 +681,13 @@ def unit_legacy_samples(ctx):
         shutil.rmtree(d, ignore_errors=True)
 
 
+def unit_histories(ctx):
+    """all write/read/mutate sequences on a two-path file store (mc/filehist.py): state leaking between calls"""
+    from mc import filehist
+
+    filehist.unit_store_histories(ctx, "vtk", "vtk")
+
+
 def units(tier):
     return [
         {"name": "grid", "fn": unit_grid, "bound": None},
@@ -690,4 +697,5 @@ def units(tier):
         {"name": "provenance", "fn": unit_provenance, "bound": None},
         {"name": "legacy", "fn": unit_legacy, "bound": None},
         {"name": "legacy_samples", "fn": unit_legacy_samples, "bound": None},
+        {"name": "histories", "fn": unit_histories, "bound": None},
     ]
